@@ -329,7 +329,11 @@ def f1(rep, src):
                     rep.violation("F1", key, "the result of the Or arm does not contain the rows on which only the %s operand holds: %s" % (nm, tshow(res)[:300]), where)
         else:
             if not any(all(atom_implied(x, ctx, None) for x in c) for c in alts):
-                rep.violation("F1", key, explain(ctx, alts, res), where)
+                if ctx.kind == "none" and not default and not any(a[0] == "EMPTY" for c in alts for a in c):
+                    # a narrowing arm for a variant this rule has no predicate model for: it may be sound (the rule cannot tell), so the report says so
+                    rep.undecidable("F1", key, "new narrowing arm for Function::%s: the rule has a model for And/Or/Gt/GtEq/Lt/LtEq/Eq/InList only; %s" % (variant, explain(ctx, alts, res)[:200]), where)
+                else:
+                    rep.violation("F1", key, explain(ctx, alts, res), where)
         for l in ctx.latent:
             rep.extra.setdefault("latent", []).append({"arm": key, "note": l})
 
